@@ -1,17 +1,20 @@
 """C25 — transport errors are classified: connection loss cuts off, others raise.
 
 Model:    lean/IofloModel/Model/Errno.lean  (the except-ladders of receive/send/handshake/accept/connect of the TCP
-          transports, of SocketUdpNb and of GramStack), version `fixed` = with fixes/D13-*.patch and fixes/D26-*.patch
+          transports, of SocketUdpNb and of GramStack), version `fixed2` = with fixes/D13-*, D26-* and D26b-*.patch
 Theorems: lean/IofloModel/Props/C25.lean
 Tie:      one (site, exception class, args[0], cutoff-before) per case: a scripted double raises exactly that exception
           out of the socket call of the real method; return value, cutoff flag, socket-still-open and whether an
           exception left the method are compared with the Lean driver (engine `errno`).
 Oracle:   (independent of the model) the three clauses of the property computed from Python's own errno / ssl names.
 """
-import errno, ssl, socket, types
+import errno, ssl, socket, types, os
 from collections import deque
 import core
 from props import _wa_doubles as D
+
+# which version of the model the tree is compared with: "fixed" = D13 + D26, "fixed2" = also D26b
+MODEL = os.environ.get("WA_C25_MODEL", "fixed2")
 
 DATA = ["clientRecv", "clientSend", "clientTlsRecv", "clientTlsSend",
         "incomerRecv", "incomerSend", "incomerTlsRecv", "incomerTlsSend"]
@@ -278,10 +281,9 @@ class CHECK(core.Check):
                "real-loopback scenarios check this convention and the errno values against a live kernel"]
     PARTIAL = ["C25_loss_cuts_off_partial: loss clause proved for receive/send; the TLS handshake closes the socket and "
                "re-raises on connection loss / TLS EOF (finding D26c, C25_counterexample_handshake)",
-               "C25_other_raises_partial: 'other errors propagate' holds outside OSError(errno 2 or 3) on TLS transports, "
-               "which the ladders take for SSL want-read/want-write by number (finding D26b)",
-               "model = repaired ladders (fixes/D13-gramstack-receive-transient-in.patch, fixes/D26-tls-eof-cutoff.patch); on "
-               "the unpatched tree TLS EOF and GramStack receive errors are VIOLATIONs (C25_D26_orig_*, C25_D13_orig_*)",
+               "model = repaired ladders (fixes/D13-gramstack-receive-transient-in.patch, fixes/D26-tls-eof-cutoff.patch, "
+               "fixes/D26b-tls-wouldblock-needs-sslerror.patch); on a tree without them TLS EOF, GramStack receive errors and "
+               "OSError(2|3) on TLS transports are VIOLATIONs (C25_D26_orig_*, C25_D13_orig_*, C25_D26b_orig_*)",
                "EAGAIN out of sendto is re-raised by SocketUdpNb.send / GramStack (no would-block branch): modelled, outside "
                "the property's stream-transport clause"]
     TECHNIQUE = ("Lean 4 theorems over the whole errno universe (Nat) by list-membership reasoning and finite case "
@@ -289,11 +291,11 @@ class CHECK(core.Check):
     LEVEL_TEXT = ("Proved on the model for every errno n : Nat and every exception class: C25_loss_cuts_off_partial (all 8 "
                   "receive/send ladders: loss errno or TLS EOF => cutoff, empty/0 returned, no raise), "
                   "C25_would_block_no_state_change (all sites with a would-block branch, both versions), "
-                  "C25_other_raises_partial, C25_plain_exact (cutoff iff errno in the loss set; would-block iff EAGAIN; raise "
+                  "C25_other_raises (full, all eight ladders), C25_plain_exact (cutoff iff errno in the loss set; would-block iff EAGAIN; raise "
                   "otherwise), C25_handshake_other_closes_and_raises, C25_gram_transient_retry (send and receive), "
                   "C25_gram_other_raises, C25_connect_classified, C25_fix_changes_nothing_else, and the as-found behaviour "
-                  "C25_D26_orig_reraises_tls_eof, C25_D13_orig_receive_fatal. Counterexamples to the full statements: "
-                  "C25_counterexample_handshake (D26c), C25_counterexample_tls_number_clash (D26b).")
+                  "C25_D26_orig_reraises_tls_eof, C25_D13_orig_receive_fatal, C25_D26b_orig_swallows_oserror. Counterexample to "
+                  "the full loss statement: C25_counterexample_handshake (D26c).")
     LEVEL_NOTE = ("Trusted: Lean kernel; axioms propext, Quot.sound (Classical.choice if listed); the transcription of the "
                   "ladders, validated by the correspondence runs over all sites x classes x errnos 0..135; the doubles. Not "
                   "covered: which errors real kernels / OpenSSL actually produce; console logging branches.")
@@ -353,7 +355,8 @@ class CHECK(core.Check):
             return ["errno " + case["const"]]
         if "connect" in case:
             return ["connect %d" % case["connect"]]
-        return ["classify %s %s %d %d 1" % (case["site"], case["cls"], case["arg0"], case["cut"])]
+        return ["%s %s %s %d %d 1" % ("classify2" if MODEL == "fixed2" else "classify",
+                                       case["site"], case["cls"], case["arg0"], case["cut"])]
 
     def model_post(self, case, replies):
         if "real" in case:
